@@ -22,4 +22,4 @@ def generate(run_seed, tier):
     r = core.rng(run_seed, "curveset")
     names = even_toys() if r.random() < 0.10 else odd_toys()
     return hist.gen_program("C07", run_seed, tier, names, named_small(),
-                            (5, 30), named_frac=0.06)
+                            (5, 30 if tier == "quick" else 60), named_frac=0.06)
